@@ -165,31 +165,7 @@ func runC10(c *Ctx) {
 			if src == nil {
 				continue
 			}
-			qf := p.Facts().Analyze(src)
-			nTrue, okAll := 0, true
-			for _, ret := range qf.Returns() {
-				if len(ret.Results) != 1 {
-					okAll = false
-					continue
-				}
-				tv := src.Pkg.TypesInfo.Types[ret.Results[0]]
-				if tv.Value != nil && tv.Value.String() == "false" {
-					continue
-				}
-				under := false
-				if st, _ := qf.At(ret); st != nil && tv.Value != nil && tv.Value.String() == "true" {
-					for _, fa := range st.Facts() {
-						if a, is := isContains(fa, "op"); is && fa.Pos && a.K == 'k' && strings.HasSuffix(a.Name, ".Permissions") {
-							under = true
-						}
-					}
-				}
-				if under {
-					nTrue++
-				} else {
-					okAll = false
-				}
-			}
+			nTrue, okAll := opPredicateReturns(p, src)
 			if nTrue == 0 {
 				continue // not a test for operators at all
 			}
@@ -202,6 +178,48 @@ func runC10(c *Ctx) {
 			opsPredSites[cs.Call.Lparen] = true
 		}
 	}
+	// op := slices.IndexFunc(members, <member holds op>): op < 0 says no operator is present
+	opsIndexVars := map[types.Object]bool{}
+	ast.Inspect(ac.Body(), func(n ast.Node) bool {
+		as, ok := n.(*ast.AssignStmt)
+		if !ok || len(as.Lhs) != 1 || len(as.Rhs) != 1 {
+			return true
+		}
+		id, ok := as.Lhs[0].(*ast.Ident)
+		call, ok2 := unparen(as.Rhs[0]).(*ast.CallExpr)
+		if !ok || !ok2 {
+			return true
+		}
+		if f := calleeOf(&CallSite{Call: call, In: ac}); f == nil || f.Pkg() == nil || f.Pkg().Path() != "slices" || f.Name() != "IndexFunc" {
+			return true
+		}
+		o := info.ObjectOf(id)
+		sound := false
+		if learnt := ff.containsFuncFalse(emptyState, call); learnt != nil {
+			for _, f := range learnt.Facts() {
+				if a, is := isContains(f, "op"); is && !f.Pos && a.K == 'k' && len(a.Args) == 1 && a.Args[0].K == 'o' && a.Args[0].Name == "each" {
+					sound = true
+				}
+			}
+		}
+		// the variable has no other definition
+		ndef := 0
+		ast.Inspect(ac.Body(), func(m ast.Node) bool {
+			if as2, isAs := m.(*ast.AssignStmt); isAs {
+				for _, l := range as2.Lhs {
+					if lid, isId := l.(*ast.Ident); isId && info.ObjectOf(lid) == o {
+						ndef++
+					}
+				}
+			}
+			return true
+		})
+		sound = sound && ndef == 1
+		opsIndexVars[o] = sound
+		c.Check(sound, "R10.1", "operator-present flag "+id.Name, as.Pos(),
+			"the index of the first member for which slices.Contains(member.Permissions(), \"op\") holds", "the value recording that an operator is present can say so without an operator")
+		return true
+	})
 	nonOp := func(f *Fact) bool { // !slices.Contains(perms, "op") on the joining client's permissions
 		a, is := isContains(f, "op")
 		return is && !f.Pos && a.K == 'v'
@@ -224,11 +242,17 @@ func runC10(c *Ctx) {
 			if f.Op == "eq" && !f.Pos && ((f.A.K == 'n' && mentionsField(f.B, fNB)) || (f.B != nil && f.B.K == 'n' && mentionsField(f.A, fNB))) {
 				return true
 			}
+			if f.Op == "true" && f.Pos && f.A.K == 'k' && strings.HasSuffix(f.A.Name, ".Before") && len(f.A.Args) > 1 && mentionsField(f.A.Args[1], fNB) {
+				return true // now.Before(*NotBefore), the same test written from the other side
+			}
 			return f.Op == "true" && f.Pos && f.A.K == 'k' && strings.HasSuffix(f.A.Name, ".After") && len(f.A.Args) > 0 && mentionsField(f.A.Args[0], fNB)
 		}, true, "a non-operator joins before the group opens"},
 		{"expires", func(f *Fact) bool {
 			if f.Op == "eq" && !f.Pos && ((f.A.K == 'n' && mentionsField(f.B, fExp)) || (f.B != nil && f.B.K == 'n' && mentionsField(f.A, fExp))) {
 				return true
+			}
+			if f.Op == "true" && f.Pos && f.A.K == 'k' && strings.HasSuffix(f.A.Name, ".After") && len(f.A.Args) > 1 && mentionsField(f.A.Args[1], fExp) {
+				return true // now.After(*Expires)
 			}
 			return f.Op == "true" && f.Pos && f.A.K == 'k' && strings.HasSuffix(f.A.Name, ".Before") && len(f.A.Args) > 0 && mentionsField(f.A.Args[0], fExp)
 		}, true, "a non-operator joins after the group closed"},
@@ -237,6 +261,9 @@ func runC10(c *Ctx) {
 				return true
 			}
 			if f.Op == "true" && !f.Pos && f.A.K == 'r' && f.A.Name == "res0" && opsPredSites[f.A.Pos] {
+				return true
+			}
+			if f.Op == "lt" && f.Pos && f.A.K == 'v' && opsIndexVars[f.A.Obj] && f.B != nil && f.B.K == 'c' && f.B.Name == "0" {
 				return true
 			}
 			if f.Op == "true" && !f.Pos && f.A.K == 'k' {
@@ -516,6 +543,15 @@ func runC10(c *Ctx) {
 		opTestSite := map[token.Pos]bool{}
 		ast.Inspect(alk.Body(), func(n ast.Node) bool {
 			if call, ok := n.(*ast.CallExpr); ok {
+				if f := calleeOf(&CallSite{Call: call, In: alk}); f != nil && f.Pkg() == alk.Pkg.Types {
+					for _, q := range p.Sources() {
+						if q.Obj == f && q.Decl != nil {
+							if nt, okAll := opPredicateReturns(p, q); nt > 0 && okAll {
+								opTestSite[call.Lparen] = true
+							}
+						}
+					}
+				}
 				if learnt := aff.containsFuncFalse(emptyState, call); learnt != nil {
 					for _, f := range learnt.Facts() {
 						if a, is := isContains(f, "op"); is && !f.Pos && a.K == 'k' && len(a.Args) == 1 && a.Args[0].K == 'o' && a.Args[0].Name == "each" {
@@ -584,7 +620,7 @@ func runC10(c *Ctx) {
 		called := false
 		if ex.St != nil {
 			for _, f := range ex.St.Facts() {
-				if f.Op == "true" && f.Pos && f.A.K == 'o' && f.A.Name == "called:group.autoLockKick" {
+				if f.Op == "true" && f.Pos && f.A.K == 'o' && f.A.Name == "called:"+funcName(alk.Obj) {
 					called = true
 				}
 			}
@@ -607,4 +643,48 @@ func isContains(f *Fact, perm string) (*Term, bool) {
 		return nil, false
 	}
 	return f.A.Args[0], true
+}
+
+// opPredicateReturns examines a boolean function: nTrue counts the returns
+// that can yield true and do so only where a member's permissions were found
+// to contain "op" (`return true` under slices.Contains(x.Permissions(), "op"),
+// or `return slices.ContainsFunc(xs, <x holds op>)`); okAll is false when some
+// return can yield true otherwise.
+func opPredicateReturns(p *Program, src *FuncSrc) (nTrue int, okAll bool) {
+	qf := p.Facts().Analyze(src)
+	okAll = true
+	for _, ret := range qf.Returns() {
+		if len(ret.Results) != 1 {
+			okAll = false
+			continue
+		}
+		tv := src.Pkg.TypesInfo.Types[ret.Results[0]]
+		if tv.Value != nil && tv.Value.String() == "false" {
+			continue
+		}
+		under := false
+		st, _ := qf.At(ret)
+		if st != nil && tv.Value != nil && tv.Value.String() == "true" {
+			for _, fa := range st.Facts() {
+				if a, is := isContains(fa, "op"); is && fa.Pos && a.K == 'k' && strings.HasSuffix(a.Name, ".Permissions") {
+					under = true
+				}
+			}
+		}
+		if call, isCall := unparen(ret.Results[0]).(*ast.CallExpr); isCall && tv.Value == nil {
+			if learnt := qf.containsFuncFalse(emptyState, call); learnt != nil {
+				for _, f := range learnt.Facts() {
+					if a, is := isContains(f, "op"); is && !f.Pos && a.K == 'k' && len(a.Args) == 1 && a.Args[0].K == 'o' && a.Args[0].Name == "each" {
+						under = true
+					}
+				}
+			}
+		}
+		if under {
+			nTrue++
+		} else {
+			okAll = false
+		}
+	}
+	return
 }
